@@ -1,22 +1,37 @@
 #!/venv/bin/python
-"""Re-run every kept seeded defect (/verif/seeded/<id>/patch.diff) against the current /repo HEAD with the quick check(s) of its
-property (plus any extra checks named in meta.json 'also_checks') and print a table.  Patches that no longer apply are reported."""
+"""Re-run every kept seeded defect (/verif/seeded/<id>/patch.diff) against the current /repo HEAD: the patch is applied to /repo, the quick
+check of its property (then those named in meta.json 'also_checks') is run until one reports a violation, and the patch is undone straight
+afterwards.  Prints a table and writes seeded/RESULTS.json.  Patches that no longer apply are reported.  /repo must be clean and must not
+be used by anything else meanwhile."""
 import json, os, subprocess, sys
 rows = []
 only = set(sys.argv[1:])
+if subprocess.run("git -C /repo status --porcelain -- src", shell=True, capture_output=True, text=True).stdout.strip():
+    sys.exit("/repo has uncommitted changes under src; refusing")
 for d in sorted(os.listdir("/verif/seeded")):
     p = f"/verif/seeded/{d}"
     if not os.path.isdir(p) or (only and d not in only and d.split("-")[0] not in only):
         continue
     meta = json.load(open(f"{p}/meta.json"))
-    checks = [meta["property"]] + meta.get("also_checks", [])
-    t = subprocess.run(["/verif/tools/try_seed.sh", f"{p}/patch.diff", *checks], capture_output=True, text=True)
-    if "PATCH DOES NOT APPLY" in t.stdout:
+    checks = [meta["property"]] + [c for c in meta.get("also_checks", []) if c != meta["property"]]
+    patch = f"{p}/patch.diff"
+    if subprocess.run(["git", "-C", "/repo", "apply", "--check", patch], capture_output=True).returncode != 0:
         res = "patch-does-not-apply"
     else:
-        det = [c for c in checks if f"== {c} rc=1" in t.stdout]
-        broken = [c for c in checks if f"== {c} rc=2" in t.stdout]
+        subprocess.run(["git", "-C", "/repo", "apply", patch], check=True)
+        try:
+            outcome = {}
+            for c in checks:
+                t = subprocess.run(["/venv/bin/python", "-m", "mc.run", c, "--tier", "quick"], cwd="/verif", capture_output=True, text=True,
+                                   env=dict(os.environ, VERIF_SEED=os.environ.get("VERIF_SEED", "0")))
+                outcome[c] = t.returncode
+                if t.returncode == 1:
+                    break
+        finally:
+            subprocess.run(["git", "-C", "/repo", "checkout", "--", "."], check=True)
+        det = [c for c, rc in outcome.items() if rc == 1]
+        broken = [c for c, rc in outcome.items() if rc not in (0, 1)]
         res = ("detected by " + ",".join(det)) if det else ("CHECK-BROKEN " + ",".join(broken) if broken else "MISSED")
     rows.append((d, res, meta.get("summary", "")[:110]))
     print(f"{d:8s} {res:28s} {meta.get('summary','')[:110]}", flush=True)
-json.dump(rows, open("/verif/seeded/RESULTS.json", "w"), indent=1)
+    json.dump(rows, open("/verif/seeded/RESULTS.json", "w"), indent=1)
